@@ -20,9 +20,11 @@ def ofLeBytes : Bytes → Nat
   | b :: bs => b.toNat + 256 * ofLeBytes bs
 
 /-- Number of significant bytes of `n` (`0` for `0`). -/
-def sigBytes (n : Nat) : Nat :=
-  if h : n = 0 then 0 else 1 + sigBytes (n / 256)
-decreasing_by omega
+def sigBytesAux : Nat → Nat → Nat
+  | 0, _ => 0
+  | f + 1, n => if n = 0 then 0 else 1 + sigBytesAux f (n / 256)
+
+def sigBytes (n : Nat) : Nat := sigBytesAux n n
 
 /--
 `BufMutExt::put_varint_le::<N>` applied to `n.to_le_bytes()` for an `N`-byte unsigned integer.
